@@ -77,7 +77,7 @@ func GetModFn(name string) ModFn {
 func printIterations(args []any) int {
 	itr := 1
 	if len(args) > 0 {
-		if itrRaw, ok := args[0].(*[]byte); ok {
+		if itrRaw, ok := args[0].(*[]byte); ok && itrRaw != nil {
 			if itr64, err := strconv.ParseInt(byteconv.B2S(*itrRaw), 10, 64); err == nil {
 				itr = int(itr64)
 			}
